@@ -2,9 +2,16 @@ from . import COMMON_TB, FLOCQ_AXIOMS_NOTE
 
 CONFIG = dict(
     harness="c20",
-    comparisons=[
-        dict(name="model", code=2000, kind="eq"),
-        dict(name="spec", code=2001, kind="holds", predicate=True),
+    suites=[
+        dict(suffix="", profile="debug", comparisons=[
+            dict(name="model", code=2000, kind="eq"),
+            dict(name="spec", code=2001, kind="holds", predicate=True),
+        ]),
+        # wrapping arithmetic / no debug assertions: the value computations of the Entry impl
+        dict(suffix="-rel", profile="release", comparisons=[
+            dict(name="model", code=2000, kind="eq"),
+            dict(name="spec", code=2001, kind="holds", predicate=True),
+        ]),
     ],
     trusted_base=COMMON_TB + [FLOCQ_AXIOMS_NOTE],
     assumptions=[
